@@ -340,12 +340,12 @@ theorem Tracked.congr {s s' : State} (ht : s'.track = s.track) (q : Nat) : Track
 /-! ## allocateMultiplePages -/
 
 theorem trip_allocMulti {F : Nat} {s s' : State} {n : Nat} {pages : List Nat} (h : FInv F s) (hN : NInv F s)
-    (hE : EAll F s) (hK : Keys s) (hC : CntEq s) (ha : allocMulti s n = .ok (pages, s')) :
+    (hE : EAll F s) (hK : Keys s) (hC : CntEq s) (ha : allocMultiPos s n = .ok (pages, s')) :
     NInv F s' ∧ (1 ≤ n → EAll F s') ∧ Keys s' ∧ CntEq s' ∧ (∀ q, Tracked s' q ↔ (q ∈ pages ∨ Tracked s q)) ∧
       pages.Nodup ∧ ∀ q ∈ pages, ¬ Tracked s q := by
   have hlen := h.hlen
   have hsz := h.hsize
-  unfold allocMulti at ha
+  unfold allocMultiPos at ha
   simp only at ha
   split at ha
   · cases ha
